@@ -7,6 +7,7 @@ require (
 	github.com/golang/snappy v1.0.0
 	gitlab.com/aquachain/aquachain v0.0.0
 	golang.org/x/crypto v0.37.0
+	golang.org/x/text v0.24.0
 	golang.org/x/tools v0.32.0
 )
 
